@@ -69,8 +69,8 @@ func lenenc(b []byte, n uint64) []byte {
 	return binary.LittleEndian.AppendUint64(append(b, 0xfe), n)
 }
 func lenstr(b []byte, s string) []byte { return append(lenenc(b, uint64(len(s))), s...) }
-func okPacket() []byte                { return []byte{0, 0, 0, 2, 0, 0, 0} }
-func eofPacket() []byte               { return []byte{0xfe, 0, 0, 2, 0} }
+func okPacket() []byte                 { return []byte{0, 0, 0, 2, 0, 0, 0} }
+func eofPacket() []byte                { return []byte{0xfe, 0, 0, 2, 0} }
 func errPacket(no uint16, msg string) []byte {
 	return append([]byte{0xff, byte(no), byte(no >> 8), '#', 'H', 'Y', '0', '0', '0'}, msg...)
 }
